@@ -9,7 +9,7 @@ import sys
 
 import z3
 
-from .interp import explore, PyRaise, Exec, PathEnd
+from .interp import explore, PyRaise, Exec, PathEnd, Infeasible
 from .sbytes import SBytes
 from .sym import SInt, SBool, SAny, Unsupported, mk_bool, iterm, is_sym
 
@@ -143,7 +143,8 @@ def make_exception(ex, c, E, bound):
 
 def apply(ex, c, info, fn, bound, cls, closure_env, selfobj):
     """modular rule at a call site: obligation requires, then assume ensures / raises over fresh symbols"""
-    if c.mode == "inline":
+    if c.mode == "inline" or info.qualname.endswith(".__init__"):
+        # constructors act on `self`: their contracts are proved for the body; at call sites the body is executed
         ex.inlined.add(info.key)
         return INLINE
     if c.pure and not any(is_sym(v) for v in bound.values()) and not info.is_async:
@@ -162,7 +163,14 @@ def apply_now(ex, c, info, bound):
         tag = f"[{' '.join(c.props)}]" if c.props else ""
         ex.check(f"call:{info.key}/requires{tag}", eval_clause(ex, c.requires, bound))
     excs = list(c.raises_only) if c.raises_only else []
-    k = ex.choose(1 + len(excs), tag=f"call:{info.key}")
+    allow_return = True
+    if c.outcomes is not None:
+        allow_return, excs = c.outcomes(ex, bound, excs)
+    options = ([None] if allow_return else []) + excs
+    if not options:
+        raise Infeasible()
+    pick = options[ex.choose(len(options), tag=f"call:{info.key}")]
+    k = 0 if pick is None else 1 + excs.index(pick)
     ex.assuming += 1
     try:
         if k == 0:
@@ -170,7 +178,12 @@ def apply_now(ex, c, info, bound):
             env = dict(bound, result=result)
             bind_globals_new(ex, c, env, True)
             for n, f in c.ensures:
-                ex.assume(eval_clause(ex, f, env))
+                try:
+                    ex.assume(eval_clause(ex, f, env))
+                except Infeasible:
+                    # requires was just proved, so a satisfiable callee post must exist: this is a vacuity bug in the
+                    # contract (or in how it is applied), never a silently dropped path
+                    raise Unsupported(f"post-condition {n} of {info.key} is unsatisfiable at this call site")
             return result
         E = excs[k - 1]
         raised = make_exception(ex, c, E, bound)
@@ -197,6 +210,7 @@ def verify_body(ex, c, info, fn, bound=None):
                 raise Unsupported(f"{c.key}: contract declares no kind for parameter '{p}'")
             bound[p] = make_value(ex, c.args[p], p)
     ex.inputs = dict(bound)
+    ex.verify_key = c.key
     genv = {}
     bind_globals_old(ex, c, genv, True)
     if c.requires is not None:
